@@ -1656,6 +1656,10 @@ class GDict:
         self.present, self.entries, self.truthy, self.label = dict(present), dict(entries), truthy, label
         self.attrs = dict(attrs or {})       # attributes of a dict subclass instance (e.g. symbol_resolver._Scope)
 
+    def __repr__(self):
+        a = {k: (v.f if isinstance(v, SRec) else v) for k, v in self.attrs.items() if k in ("canonical_name", "alias")}
+        return "GDict<%s keys=%s%s>" % (self.label, sorted(self.entries), (" " + repr(a)) if a else "")
+
 
 class _DigitChar:
     """One character of the decimal rendering of a non-negative integer: equal to no non-digit character."""
